@@ -6,6 +6,8 @@ import vlib
 RANGE_TOKS = {"0", "1", "5", "9", "-", ",", "SP", "x", "B63", "B64"}
 RANGE_PREFIXES = {"bytes=", "Bytes=", "items=", "bytes", "bytes =", "=", ""}
 SIZES = [0, 1, 2, 10, 1000]
+# a path segment long enough that everything behind it lies beyond byte 256 of any textual form of the request
+LONGSEG = "l" + "o" * 258 + "ng"
 
 
 def _gen_and_run(gen_module, judge_module, consts, mode, d, extra_args=(), timeout=900):
@@ -54,7 +56,7 @@ def key_run(maxsegs, wide=False, e2e=True):
     try:
         consts = dict(Methods={"GET", "HEAD", "POST"} if wide else {"GET", "HEAD"},
                       Hosts={"h.example", "H.EXAMPLE", "other.example", "Other.Example"} if wide else {"h.example", "H.EXAMPLE", "other.example"},
-                      Segs={"a", "b", ".", "..", "", "a|b", "a%7Cb", "a%3Fb"}, LastSegs={"a", "b", "a|b", "a%7Cb", "a%3Fb"},
+                      Segs={"a", LONGSEG, ".", "..", "", "a|b", "a%7Cb", "a%3Fb"}, LastSegs={"a", "b", "a|b", "a%7Cb", "a%3Fb"},
                       Queries={"NONE", "b", "b=", "c", "b|c", "x=1&y=2", "y=2&x=1"}, MaxSegs=maxsegs,
                       CaseFile=os.path.join(d, "cases.ndjson"), ResultFile=os.path.join(d, "res.ndjson"),
                       E2EFile=os.path.join(d, "e2e.ndjson"))
